@@ -584,3 +584,58 @@ func init() {
 		}
 	})
 }
+
+// ------------------------------------------------------------------ C11.R11
+// F52: "not pending, not committed, valid → store, count and queue it" must be one step. AddEvidence runs
+// in one routine per peer and for the RPC, CheckEvidence and Update in the consensus routine. Without a
+// common exclusion the same evidence is counted and queued twice (the reported size is one too high for
+// good), or an AddEvidence that passed its tests while the block carrying the evidence was committed makes
+// committed evidence pending again (proposed and accepted in another block). Rule (K6): there is one mutex
+// of the pool that all three entry points hold at every site where they test, add to, or mark the pending /
+// committed sets.
+func init() {
+	register("C11", "R11", "K6", "AddEvidence, CheckEvidence and Update test and change the pending/committed sets under one common mutex", 8, func(c *Ctx) {
+		w := c.W
+		entry := []string{"Pool.AddEvidence", "Pool.CheckEvidence", "Pool.Update"}
+		sites := []string{"evidence#Pool.isPending", "evidence#Pool.isCommitted", "evidence#Pool.addPendingEvidence", "evidence#Pool.markEvidenceAsCommitted", "evidence#Pool.removeExpiredPendingEvidence", "evidence#Pool.processConsensusBuffer"}
+		var common map[string]bool
+		type site struct {
+			f    *ssa.Function
+			call ssa.CallInstruction
+			held []string
+		}
+		var all []site
+		for _, name := range entry {
+			f := c.fn("evidence", name)
+			if f == nil {
+				continue
+			}
+			n := 0
+			for _, spec := range sites {
+				for _, call := range w.callsTo(f, spec) {
+					n++
+					held := w.computeLocks(call.Parent()).heldAt(call)
+					all = append(all, site{f, call, held})
+					set := map[string]bool{}
+					for _, h := range held {
+						set[h] = true
+					}
+					if common == nil {
+						common = set
+					} else {
+						for k := range common {
+							if !set[k] {
+								delete(common, k)
+							}
+						}
+					}
+				}
+			}
+			c.Check(n >= 2, funcKey(f)+" :: admission steps found", w.pos(f.Pos()), ">= 2", fmt.Sprintf("%d", n))
+		}
+		ky := newKeyer()
+		for _, s := range all {
+			c.Check(len(common) >= 1, ky.key(s.f, "pending/committed set touched under the common admission mutex"), w.ipos(s.call), "a mutex held at every such site of the three entry points", fmt.Sprintf("held here: %v; no mutex is held at all of the sites: two routines can both find the evidence new and both add and count it, or add it after it was committed", s.held))
+		}
+	})
+}
